@@ -84,6 +84,16 @@ class ClassInfo:
                     out.append(c)
         return out
 
+    def all_methods(self) -> list:
+        """Methods visible on the class (own and inherited from repository classes), overriding ones first."""
+        out, seen = [], set()
+        for c in self.mro():
+            for nm, fi in c.methods.items():
+                if nm not in seen:
+                    seen.add(nm)
+                    out.append(fi)
+        return out
+
     def find_method(self, name: str) -> FuncInfo | None:
         for c in self.mro():
             if name in c.methods:
@@ -98,6 +108,19 @@ class ClassInfo:
                 if name in c.methods:
                     return c.methods[name]
         return None
+
+    @property
+    def is_namedtuple(self) -> bool:
+        return any("NamedTuple" in c.base_names for c in self.mro())
+
+    def nt_fields(self) -> list:
+        """Field names of a NamedTuple class, in declaration order."""
+        out = []
+        for c in reversed(self.mro()):
+            for k in c.annotations:
+                if k not in out:
+                    out.append(k)
+        return out
 
     def is_enum_like(self) -> bool:
         """Members of Enum classes are objects, not the values written in the class body."""
@@ -306,6 +329,13 @@ class PyFacts:
         if f is None:
             raise AnalysisError(f"anchor function vanished: {qual}")
         return f
+
+    def has_class(self, qual: str) -> bool:
+        try:
+            self.cls(qual)
+            return True
+        except AnalysisError:
+            return False
 
     def has_func(self, qual: str) -> bool:
         try:
